@@ -133,3 +133,41 @@ PROPS = {
         explanation="C06.expired_eq_deleted_spec (whole continuations indistinguishable), expired_outcomes, never_dropped_early on the contract; both I-models inherit them through the C03 refinements",
     ),
 }
+
+
+# ------------------------------------------------------------------------------------------------
+# texts for MANIFEST.json (tools/mkmanifest.py)
+_NOTE = ("Trusted: Lean 4.33 kernel with propext/Classical.choice/Quot.sound only (audited on every run); the hand-written "
+         "I-model agrees with the Go code only as far as the correspondence run of this check shows (differential testing); "
+         "Go harness, overlay accessors, extractor and line-protocol driver. Modelled-not-verified parts are listed in the evidence file.")
+
+def _t(level, technique, note=_NOTE):
+    return dict(level=level, technique=technique, note=note)
+
+MANIFEST_TEXT = {
+    "C03": _t("Lean proof that the in-memory and the Redis I-model each return exactly what the Storage contract (Spec) prescribes for every timed history (Redis under the stated RedisOK hypotheses); both I-models are tied to kvs/inmem and kvs/redis (miniredis) by a differential run under a virtual clock", "Lean 4 refinement proofs (two backends ⊑ contract) + model/code correspondence"),
+    "C06": _t("Lean proof on the contract that a store with an expired key is indistinguishable from the store with the key erased for every continuation, plus the listed per-operation outcomes; inherited by both I-models through the C03 refinements; tie as C03 with every operation kind forced to be the first after an expiry", "Lean 4 proof (expired ≡ erased on the Spec, lifted by refinement) + model/code correspondence"),
+    "C08": _t("Lean proof that the ECache I-model's results and callback invocations equal those of a reference LRU (unordered residents + last-use stamps) for every call sequence, capacity, key mapping and create/expiry oracle; tied to container/lru by a differential run that also compares every create/delete callback", "Lean 4 refinement proof (I-model ⊑ reference LRU) + model/code correspondence"),
+    "C10": _t("Lean proof that the linked-list I-model of iterable.Map never dereferences nil and returns the Spec's outputs for every history with any number of open iterators; tied to map.go by a differential run that also compares the linked nodes (state, refCnt, key) after every op", "Lean 4 refinement proof (I-model ⊑ log/stamp Spec) + model/code correspondence"),
+    "C11": _t("Lean proof that after any history the linked nodes are exactly live entries + sentinel + removed entries pinned by open iterators (≤ #iterators), nothing retained when all are closed; Go-side monitor walks the real list after every op, also inside lru.ECache over long Clear/Remove/GetOrCreate histories. The LRU bound is proved at map level and checked by the monitor (composition theorem ECache-over-M not yet mechanised)", "Lean 4 invariant proof + model/code correspondence with real-object monitor"),
+    "C12": _t("Lean proof of index integrity + heap order + cancel-removes-exactly + never-early + at-most-once for every sequence of dispatcher critical sections over a transcription of container/heap; tied to timeout.go by driving the package's own add/cancel/heap.Pop on a private dispatcher and comparing the heap array and every future's idx after every op", "Lean 4 invariant proofs over transcribed container/heap + model/code correspondence"),
+    "C14": _t("Lean proof that the ring-buffer I-model refines a bounded FIFO queue for every capacity and call sequence and keeps consumed slots zero; tied to ringbuffer.go by a differential run incl. the backing array and a Go-side zero-slot monitor", "Lean 4 refinement proof (I-model ⊑ bounded queue) + model/code correspondence"),
+    "C15": _t("Lean proof of round trip, exact consumption, size = written (against the size function REGENERATED from the Go source on every run), short-buffer ⇔ error, writer = marshal and concatenation decoding for all values; tied by regeneration + differential run with Go-side round-trip/size/aliasing monitors", "Lean 4 proofs over a regenerated definition + model/code correspondence"),
+    "C16": _t("Lean proof that every Unmarshal function is total on arbitrary byte lists, stays in bounds and consumes 0 on error (explicit int64 wrap-around and checked slicing in the model); tied by a differential run on exhaustive short inputs and adversarial length prefixes, each call under recover", "Lean 4 totality proof + model/code correspondence"),
+    "C17": _t("Lean proof that the allocator I-model refines a set of allocated indices for every op sequence from any opened allocator (least free index, ErrExhausted iff full, Available exact, reopen reproduces the set), geometry accepted iff valid, ranges disjoint, data untouched; tied to blocks.go by a differential run incl. header bytes and Go-side monitors", "Lean 4 refinement proof (I-model ⊑ set) + model/code correspondence"),
+    "C18": _t("Lean proof that the mixer I-model equals the reference two-pointer merge under every HasNext/Next/Reset pattern, is an interleaving, merges sorted inputs sorted; tied to mixer.go by a differential run", "Lean 4 refinement proof (I-model ⊑ reference merge) + model/code correspondence"),
+    "C19": _t("Lean proof, against the class list and both tables REGENERATED from errors.go/grpc.go, that Is(GRPCWrap(e), c) holds exactly for the chain's class in any map order, GRPCWrap is idempotent, embedded objects stay extractable, every code maps to one class; tied by regeneration + differential run with Go-side monitors", "Lean 4 proofs over regenerated tables (decide + structural induction) + model/code correspondence"),
+}
+
+NOT_CLAIMED = {
+    "C01": "claimed once the trace-refinement tie (controlled scheduler over the real kvsLock) is in place; the Lean model and theorems (Props/C01.lean) are already proved",
+    "C02": "in progress: contract-level theorems proved (Props/C02Spec.lean); linearizability tie for the concurrent backends not built yet",
+    "C04": "claimed once the trace-refinement tie is in place; Lean theorems (Props/C04.lean) proved",
+    "C05": "claimed once the trace-refinement tie is in place; Lean theorems (Props/C05.lean) proved",
+    "C07": "in progress (waiter small-step model + tie not built yet)",
+    "C09": "in progress (concurrent LRU model + tie not built yet)",
+    "C13": "in progress (worker-pool model + tie not built yet)",
+    "C20": "in progress (zip path model + tie not built yet)",
+}
+for _p in ("C01", "C04", "C05"):
+    PROPS[_p]["claimed"] = False
